@@ -36,4 +36,11 @@ CLAIMED = {
    note='Trusted: sqlite3 point lookups / BLOB ordering, interface contract of the wrapped base of SubsetFederatedData, purity of user '
         'functions. Known finding D-08b (SQLite client_size vs row-count-changing client preprocessors) is reported as KNOWN-FINDING '
         'and proved absent outside its region. shuffled_clients relies on buffered_shuffle (bounded only, C15).'),
+ 'C13': dict(
+   text='Unbounded proof that UniformGetClientSampler.sample returns, at round r, exactly choice(RandomState(lehmer(seed, r)), '
+        'all ids, n) with the datasets of those ids and keys split(PRNGKey(r), n)[i] — terms over (seed, r) only — advances only the '
+        'round counter (no cached generator, id list never mutated, no global numpy RNG), that set_round_num seats it, and that the '
+        'streaming sampler keeps position = round * cohort so a sampler started at r replays rounds r, r+1, ... of one started at 0.',
+   note='Trusted: numpy RandomState/choice and jax PRNGKey/split are deterministic (uninterpreted); choice(replace=False) distinct; '
+        'primality of 2^31-1 for the seed-range remark. Not covered: pairwise distinct keys differing between rounds (PRNG property).'),
 }
